@@ -268,6 +268,267 @@ theorem nil_opts (i : Input σ α) :
     intro c; simp [challengeFor, challengeParams, Opts.zero]
   simp only [serve, verify, h1, h2, Option.getD]
 
+/-! ## The request context, stacked middlewares, the response as sent -/
+
+/-- Middleware `l` admits a request with `Authorization` value `hdr` and context `ctx`, with token
+info `info`: the conditions of `admit_iff`, for this middleware's verifier and options. -/
+def Layer.Admits (l : Layer σ α) (hdr : List Char) (ctx : Ctx σ α) (info : Info σ α) : Prop :=
+  ∃ tok, Credential hdr tok ∧
+    (l.verifier ctx tok).err = none ∧ (l.verifier ctx tok).info = some info ∧
+    (∀ s ∈ (eff l.opts).scopes, s ∈ info.scopes) ∧ Unexpired info.exp (eff l.opts) l.now
+
+theorem Layer.admits_iff (l : Layer σ α) (hdr : List Char) (ctx : Ctx σ α) (info : Info σ α) :
+    serve (l.input hdr ctx) = .next info ↔ l.Admits hdr ctx info :=
+  admit_iff (l.input hdr ctx) info
+
+/-- Every middleware of `ls` (outermost first) admits the request; `ctx'` is the context the
+handler behind the last one receives: each middleware's own token info stored on top of what was
+there before. -/
+inductive Admitted (hdr : List Char) : List (Layer σ α) → Ctx σ α → Ctx σ α → Prop where
+  | nil (ctx : Ctx σ α) : Admitted hdr [] ctx ctx
+  | cons {l : Layer σ α} {ls : List (Layer σ α)} {ctx ctx' : Ctx σ α} (info : Info σ α) :
+      l.Admits hdr ctx info → Admitted hdr ls (info :: ctx) ctx' → Admitted hdr (l :: ls) ctx ctx'
+
+/-- **stack_handler_iff.** Behind any number of stacked middlewares, and whatever the incoming
+request context already holds, the final handler runs iff every middleware admits the request by
+its own verifier, scopes and expiry rule. -/
+theorem stack_handler_iff (hdr : List Char) (ls : List (Layer σ α)) (ctx ctx' : Ctx σ α) :
+    stack hdr ls ctx = .handler ctx' ↔ Admitted hdr ls ctx ctx' := by
+  induction ls generalizing ctx with
+  | nil =>
+    simp only [stack]
+    constructor
+    · intro h; cases h; exact .nil _
+    · intro h; cases h; rfl
+  | cons l ls ih =>
+    simp only [stack]
+    constructor
+    · intro h
+      cases hs : serve (l.input hdr ctx) with
+      | next info =>
+        rw [hs] at h
+        exact .cons info ((l.admits_iff hdr ctx info).1 hs) ((ih _).1 h)
+      | error c m ch => rw [hs] at h; cases h
+    · intro h
+      cases h with
+      | cons info ha hr =>
+        rw [(l.admits_iff hdr ctx info).2 ha]
+        exact (ih _).2 hr
+
+omit [DecidableEq σ] in
+theorem Admitted.append {hdr : List Char} {l1 l2 : List (Layer σ α)} {c1 c2 c3 : Ctx σ α}
+    (h1 : Admitted hdr l1 c1 c2) (h2 : Admitted hdr l2 c2 c3) : Admitted hdr (l1 ++ l2) c1 c3 := by
+  induction h1 with
+  | nil _ => exact h2
+  | cons info ha _ ih => exact .cons info ha (ih h2)
+
+omit [DecidableEq σ] in
+theorem Admitted.split {hdr : List Char} {l1 l2 : List (Layer σ α)} {c1 c3 : Ctx σ α}
+    (h : Admitted hdr (l1 ++ l2) c1 c3) : ∃ c2, Admitted hdr l1 c1 c2 ∧ Admitted hdr l2 c2 c3 := by
+  induction l1 generalizing c1 with
+  | nil => exact ⟨c1, .nil _, h⟩
+  | cons l ls ih =>
+    cases h with
+    | cons info ha hr =>
+      obtain ⟨c2, h1, h2⟩ := ih hr
+      exact ⟨c2, .cons info ha h1, h2⟩
+
+/-- **handler_ctx_is_verifier_info.** One middleware on a request with ANY context — empty, or
+already carrying a `TokenInfo` from an enclosing middleware or other code: if its handler runs,
+`TokenInfoFromContext` in the handler yields exactly the info this middleware's verifier returned
+for this request's token (the value the scope and expiry checks were made on), never the value
+that was already there; the earlier values are only shadowed. -/
+theorem handler_ctx_is_verifier_info (hdr : List Char) (l : Layer σ α) (ctx ctx' : Ctx σ α) :
+    stack hdr [l] ctx = .handler ctx' ↔ ∃ info, l.Admits hdr ctx info ∧ ctx' = info :: ctx := by
+  rw [stack_handler_iff]
+  constructor
+  · intro h
+    cases h with
+    | cons info ha hr => cases hr; exact ⟨info, ha, rfl⟩
+  · rintro ⟨info, ha, rfl⟩
+    exact .cons info ha (.nil _)
+
+/-- **stack_handler_sees_innermost.** Behind stacked middlewares the handler finds the token info
+returned by the verifier of the innermost one (the one it is directly wrapped in), which that
+middleware checked against its own scopes and expiry rule. -/
+theorem stack_handler_sees_innermost (hdr : List Char) (ls : List (Layer σ α)) (l : Layer σ α)
+    (ctx ctx' : Ctx σ α) (h : stack hdr (ls ++ [l]) ctx = .handler ctx') :
+    ∃ ctx1 info, Admitted hdr ls ctx ctx1 ∧ l.Admits hdr ctx1 info ∧
+      tokenInfoFromContext ctx' = some info ∧ ctx' = info :: ctx1 := by
+  obtain ⟨c2, h1, h2⟩ := ((stack_handler_iff hdr _ ctx ctx').1 h).split
+  cases h2 with
+  | cons info ha hr => cases hr; exact ⟨c2, info, h1, ha, rfl, rfl⟩
+
+omit [DecidableEq σ] in
+/-- What was in the context before is still there underneath (shadowed, not altered), and every
+middleware adds exactly one value. -/
+theorem Admitted.ctx_suffix {hdr : List Char} {ls : List (Layer σ α)} {ctx ctx' : Ctx σ α}
+    (h : Admitted hdr ls ctx ctx') : ∃ pre, ctx' = pre ++ ctx ∧ pre.length = ls.length := by
+  induction h with
+  | nil _ => exact ⟨[], rfl, rfl⟩
+  | cons info _ _ ih =>
+    obtain ⟨pre, h1, h2⟩ := ih
+    exact ⟨pre ++ [info], by simp [h1], by simp [h2]⟩
+
+/-- **stack_error_first.** A stacked request is answered with an error iff some middleware rejects
+it after all the enclosing ones admitted it; the answer is that middleware's own (its status by
+cause, its own challenge parameters), and no middleware behind it is reached. -/
+theorem stack_error_first (hdr : List Char) (ls : List (Layer σ α)) (ctx : Ctx σ α)
+    (code : Nat) (msg : String) (ch : Option (List (Param σ))) :
+    stack hdr ls ctx = .error code msg ch ↔
+      ∃ pre l post ctx1, ls = pre ++ l :: post ∧ Admitted hdr pre ctx ctx1 ∧
+        serve (l.input hdr ctx1) = .error code msg ch := by
+  induction ls generalizing ctx with
+  | nil =>
+    simp only [stack]
+    constructor
+    · intro h; cases h
+    · rintro ⟨pre, l, post, _, h, _⟩; cases pre <;> cases h
+  | cons l ls ih =>
+    simp only [stack]
+    cases hs : serve (l.input hdr ctx) with
+    | next info =>
+      simp only []
+      rw [show withTokenInfo ctx info = info :: ctx from rfl, ih]
+      constructor
+      · rintro ⟨pre, l', post, c1, rfl, ha, he⟩
+        exact ⟨l :: pre, l', post, c1, rfl, .cons info ((l.admits_iff hdr ctx info).1 hs) ha, he⟩
+      · rintro ⟨pre, l', post, c1, heq, ha, he⟩
+        cases pre with
+        | nil =>
+          cases ha
+          simp only [List.nil_append, List.cons.injEq] at heq
+          obtain ⟨rfl, rfl⟩ := heq
+          rw [hs] at he; cases he
+        | cons p pre =>
+          simp only [List.cons_append, List.cons.injEq] at heq
+          obtain ⟨rfl, rfl⟩ := heq
+          cases ha with
+          | cons info' ha' hr =>
+            have : info' = info := by
+              have := (Layer.admits_iff _ hdr ctx info').2 ha'
+              rw [hs] at this; cases this; rfl
+            subst this
+            exact ⟨pre, l', post, c1, rfl, hr, he⟩
+    | error c m ch' =>
+      simp only []
+      constructor
+      · intro h; cases h
+        exact ⟨[], l, ls, ctx, rfl, .nil _, hs⟩
+      · rintro ⟨pre, l', post, c1, heq, ha, he⟩
+        cases pre with
+        | nil =>
+          cases ha
+          simp only [List.nil_append, List.cons.injEq] at heq
+          obtain ⟨rfl, rfl⟩ := heq
+          rw [hs] at he; cases he; rfl
+        | cons p pre =>
+          simp only [List.cons_append, List.cons.injEq] at heq
+          obtain ⟨rfl, rfl⟩ := heq
+          cases ha with
+          | cons info' ha' hr =>
+            have := (Layer.admits_iff _ hdr ctx info').2 ha'
+            rw [hs] at this; cases this
+
+/-- **preexisting_ctx_irrelevant.** For a verifier that does not look at the request context, a
+`TokenInfo` already present in the context changes neither the decision nor what the handler
+finds: with and without it the handler runs in the same cases and sees the same verifier info. -/
+theorem preexisting_ctx_irrelevant (hdr : List Char) (l : Layer σ α) (ctx : Ctx σ α)
+    (hv : ∀ c, l.verifier c = l.verifier []) (info : Info σ α) :
+    stack hdr [l] ctx = .handler (info :: ctx) ↔ stack hdr [l] [] = .handler [info] := by
+  have e : l.input hdr ctx = l.input hdr [] := by simp only [Layer.input, hv ctx]
+  simp only [stack, withTokenInfo, e]
+  cases serve (l.input hdr []) with
+  | next i => simp
+  | error c m ch => simp
+
+/-- The outcome read off a sequence of visits. -/
+def outcomeOfVisits (ctx : Ctx σ α) : List (Visit σ α) → Outcome σ α
+  | [] => .handler ctx
+  | v :: vs =>
+    match v.resp with
+    | .next info => outcomeOfVisits (info :: v.ctxIn) vs
+    | .error code msg ch => .error code msg ch
+
+/-- The sequence of middlewares reached (`visits`, which is what the driver renders, one entry per
+middleware with the token its verifier got) determines the outcome of `stack`: every visited
+middleware but the last admitted, the last one decides, and each was entered with the context
+left by the one before. -/
+theorem visits_outcome (hdr : List Char) (ls : List (Layer σ α)) (ctx : Ctx σ α) :
+    outcomeOfVisits ctx (visits hdr ls ctx) = stack hdr ls ctx := by
+  induction ls generalizing ctx with
+  | nil => rfl
+  | cons l ls ih =>
+    simp only [visits, stack]
+    cases hs : serve (l.input hdr ctx) with
+    | next info => simp only [outcomeOfVisits]; exact ih _
+    | error c m ch => simp only [outcomeOfVisits]
+
+/-- Each visited middleware's verifier was consulted iff the credential is well-formed, with its
+token (`verifier_called_iff`, per middleware). -/
+theorem visits_token (hdr : List Char) (ls : List (Layer σ α)) (ctx : Ctx σ α) (v : Visit σ α)
+    (hv : v ∈ visits hdr ls ctx) (tok : List Char) : v.token = some tok ↔ Credential hdr tok := by
+  induction ls generalizing ctx with
+  | nil => simp [visits] at hv
+  | cons l ls ih =>
+    simp only [visits] at hv
+    have key : ({ ctxIn := ctx, token := (verify (l.input hdr ctx)).2, resp := serve (l.input hdr ctx) } :
+        Visit σ α).token = some tok ↔ Credential hdr tok := verifier_called_iff (l.input hdr ctx) tok
+    cases hs : serve (l.input hdr ctx) with
+    | next info =>
+      rw [hs] at hv
+      simp only [List.mem_cons] at hv
+      rcases hv with rfl | hv
+      · rw [← hs]; exact key
+      · exact ih _ hv
+    | error c m ch =>
+      rw [hs] at hv
+      simp only [List.mem_singleton] at hv
+      subst hv
+      rw [← hs]; exact key
+
+/-- **challenge_sent.** The rejection as the client receives it: the status and body of
+`http.Error`, and the challenge — because the closure adds it to the header map *before*
+`http.Error` writes the header — as the one `WWW-Authenticate` value of the sent response. -/
+theorem challenge_sent (i : Input σ α) (code : Nat) (msg : String) (ch : Option (List (Param σ)))
+    (h : serve i = .error code msg ch) :
+    sentBy (wcalls (serve i)) = some { status := code, challenges := ch.toList, body := msg ++ "\n" } := by
+  rw [h]
+  cases ch <;> rfl
+
+/-- **sent_challenge_on_401_403.** `challenge_on_401_403` for the response as sent: on 401/403 with
+a metadata URL or required scopes configured the sent response has exactly one `WWW-Authenticate`
+value, carrying exactly the configured parameters; in every other rejection it has none. -/
+theorem sent_challenge_on_401_403 (i : Input σ α) (code : Nat) (msg : String)
+    (ch : Option (List (Param σ))) (h : serve i = .error code msg ch) :
+    ∃ s, sentBy (wcalls (serve i)) = some s ∧ s.status = code ∧
+      s.challenges =
+        (if code = 401 ∨ code = 403 then
+          match i.opts with
+          | none => []
+          | some o =>
+            if o.rm = "" ∧ o.scopes = [] then []
+            else [(if o.rm = "" then [] else [Param.resourceMetadata o.rm]) ++
+                  (if o.scopes = [] then [] else [Param.scope o.scopes])]
+         else []) := by
+  refine ⟨_, challenge_sent i code msg ch h, rfl, ?_⟩
+  rw [challenge_on_401_403 i code msg ch h]
+  by_cases hc : code = 401 ∨ code = 403
+  · simp only [hc, if_true]
+    cases i.opts with
+    | none => rfl
+    | some o => by_cases h1 : o.rm = "" ∧ o.scopes = [] <;> simp [h1]
+  · simp only [hc, if_false]; rfl
+
+omit [DecidableEq σ] in
+/-- **late_challenge_not_sent.** The order of the two writer calls is part of the property: a
+challenge added to the header map after `http.Error` is in the map but not in the response. -/
+theorem late_challenge_not_sent (code : Nat) (msg : String) (ps : List (Param σ)) :
+    sentBy [WCall.httpError msg code, WCall.addChallenge ps] =
+      some { status := code, challenges := [], body := msg ++ "\n" } ∧
+    sentBy (rejectCalls code msg (some ps)) =
+      some { status := code, challenges := [ps], body := msg ++ "\n" } := ⟨rfl, rfl⟩
+
 /-! ## Non-vacuity: both sides of `admit_iff` and every status occur. -/
 
 private def okInfo : Info String Unit := { scopes := ["read", "write"], exp := some 100, extra := () }
@@ -284,5 +545,26 @@ example : serve (mkIn "Bearer tok" ⟨some ⟨false, true, "oauth error"⟩, non
     .error 400 "oauth error" none := by rfl
 example : serve (mkIn "Bearer tok" ⟨none, none⟩ none 0) = .error 500 "token validation failed" none := by rfl
 example : serve (mkIn "Basic tok" ⟨none, some okInfo⟩ none 0) = .error 401 "no bearer token" none := by rfl
+
+/-! Stacked middlewares and a pre-populated context: the handler sees the innermost verifier's info
+on top of the older values; an inner rejection is answered with the inner middleware's challenge. -/
+private def lay (r : VRes String Unit) (o : Option (Opts String)) (now : Int) : Layer String Unit :=
+  { verifier := fun _ _ => r, opts := o, now := now }
+private def adminInfo : Info String Unit := { scopes := ["admin"], exp := none, extra := () }
+private def staleInfo : Info String Unit := { scopes := ["root"], exp := some (-5), extra := () }
+private def optsAdmin : Opts String := { rm := "", scopes := ["admin"], allowMissing := true, skew := 0 }
+
+example : stack "Bearer tok".toList
+    [lay ⟨none, some okInfo⟩ (some opts1) 0, lay ⟨none, some adminInfo⟩ (some optsAdmin) 0] [staleInfo] =
+    .handler [adminInfo, okInfo, staleInfo] := by rfl
+example : tokenInfoFromContext [adminInfo, okInfo, staleInfo] = some adminInfo := rfl
+example : stack "Bearer tok".toList
+    [lay ⟨none, some okInfo⟩ (some opts1) 0, lay ⟨none, some okInfo⟩ (some optsAdmin) 0] [staleInfo] =
+    .error 403 "insufficient scope" (some [.scope ["admin"]]) := by rfl
+example : stack "Bearer tok".toList [lay ⟨none, some okInfo⟩ (some opts1) 0] [staleInfo] =
+    .handler [okInfo, staleInfo] := by rfl
+example : sentBy (wcalls (serve (mkIn "Basic tok" ⟨none, some okInfo⟩ (some opts1) 0))) =
+    some { status := 401, challenges := [[.resourceMetadata "https://rs/meta", .scope ["read"]]],
+           body := "no bearer token\n" } := by rfl
 
 end Bearer
